@@ -280,7 +280,8 @@ func owSeqScenario(p owParams) func() {
 			mc.GoLow("cancel", func() { c1.Cancel(context.Canceled) })
 		}
 		mc.Quiesce()
-		switch p.state {
+		untimed := strings.HasSuffix(p.state, "-untimed")
+		switch strings.TrimSuffix(p.state, "-untimed") {
 		case "then-reset":
 			for id := 1; id <= n; id++ {
 				w.FW.Reset(world.Addr(id))
@@ -291,7 +292,14 @@ func owSeqScenario(p owParams) func() {
 				w.FW.Restart(world.Addr(id))
 			}
 		}
-		settle()
+		if untimed {
+			// no back-off timer expires: the receiver still sleeps when the second message is sent, and
+			// nothing but that message makes the client reconnect
+			mc.Quiesce()
+			settle = mc.Quiesce
+		} else {
+			settle()
+		}
 		c2 := mk()
 		w.Start(c2)
 		if p.state == "reset-during-second" || p.state == "restart-during-second" {
@@ -314,7 +322,7 @@ func owSeqScenario(p owParams) func() {
 				if e > 1 {
 					fail("C06/delivery-count", key, "%s: node %d handled one-way call %d %d times", name, id, i+1, e)
 				}
-				if e == 0 && c.Returned && c.Err == nil && (i == 0 || !p.nsw) && !(i == 1 && strings.HasSuffix(p.state, "-during-second")) && !(i == 0 && strings.HasPrefix(p.state, "first-")) {
+				if e == 0 && c.Returned && c.Err == nil && (i == 0 || !p.nsw || strings.HasPrefix(p.state, "then-")) && !(i == 1 && strings.HasSuffix(p.state, "-during-second")) && !(i == 0 && strings.HasPrefix(p.state, "first-")) {
 					fail("C06/delivery-count", key, "%s: node %d is reachable, call %d returned without error, but its message was never handled", name, id, i+1)
 				}
 			}
@@ -450,7 +458,7 @@ func c06Instances(tier string) []Instance {
 	}
 	for _, kind := range []string{"Unicast", "Multicast", "MulticastPerNodeArg"} {
 		for _, nsw := range []bool{false, true} {
-			for _, st := range []string{"then-nothing", "then-reset", "then-restart", "reset-during-second", "restart-during-second", "first-pre-cancelled", "first-cancelled-during"} {
+			for _, st := range []string{"then-nothing", "then-reset", "then-restart", "then-reset-untimed", "then-restart-untimed", "reset-during-second", "restart-during-second", "first-pre-cancelled", "first-cancelled-during"} {
 				p := owParams{kind: kind, nsw: nsw, state: st}
 				b := 1
 				if thorough(tier) {
@@ -465,7 +473,7 @@ func c06Instances(tier string) []Instance {
 
 func init() {
 	register(&Check{ID: "C06",
-		Rule:        "(a) n in 1..3 x every skip subset of the per-node function (node-distinct payloads) x 9 call variants that take one + 6 plain variants x threshold {targeted, targeted+1}: each server's received payload (also when the per-node function gives a node a valid all-default message), delivery count and the call's completion / counts are compared with f(request, i); (b) unicast / multicast variants x send-waiting on/off x node state {idle, handlers blocked forever, endpoints down, transport window full with earlier messages}: the call must have returned at the first quiescent point without any handler returning (and, with no-send-waiting, without the connection); (c) two one-way calls with {nothing, a stream reset, a crash and restart of every node} while the client is idle in between - or striking as an adversary thread during the second call, or the first call's context ending before / during it -, back-off timers fired to a horizon of 4 rounds: every message is handled at most once, and exactly once when the call reported no error; all schedules within the deviation bound; an outcome is (instance, returned, deliveries)",
+		Rule:        "(a) n in 1..3 x every skip subset of the per-node function (node-distinct payloads) x 9 call variants that take one + 6 plain variants x threshold {targeted, targeted+1}: each server's received payload (also when the per-node function gives a node a valid all-default message), delivery count and the call's completion / counts are compared with f(request, i); (b) unicast / multicast variants x send-waiting on/off x node state {idle, handlers blocked forever, endpoints down, transport window full with earlier messages}: the call must have returned at the first quiescent point without any handler returning (and, with no-send-waiting, without the connection); (c) two one-way calls with {nothing, a stream reset, a crash and restart of every node - each also without any back-off timer expiring afterwards} while the client is idle in between - or striking as an adversary thread during the second call, or the first call's context ending before / during it -, back-off timers fired to a horizon of 4 rounds: every message is handled at most once, and exactly once when the call reported no error; all schedules within the deviation bound; an outcome is (instance, returned, deliveries)",
 		Gen:         c06Instances,
 		Assumptions: []string{"'without waiting' is decided untimed: at quiescence, before any gate is opened or timer fired", "transport is the fakegrpc model with window 1 for the one-way family"},
 	})
